@@ -227,6 +227,17 @@ Definition e2e_t := (N * list (N * N) * list node * N)%type.   (* error code, al
 Definition e2e_alloc_ok (ce : pcase * e2e_t) : bool :=
   let o := snd (fst ce) in let '(err, al, ns, loc) := snd ce in
   if (err =? 0) && reached_alloc o then match prog_regs_of o with Some pr => allocation_valid al pr | None => true end else true.
+(* what the real pass.Compile deleted from the bound code (any clean-up it runs after binding, whatever
+   its name): the final nodes are the bound nodes of the staged run minus instructions whose execution has
+   no architectural effect; only judged when both runs succeeded and allocated alike *)
+Definition e2e_cleanup_ok (ce : pcase * e2e_t) : bool :=
+  let o := snd (fst ce) in let '(err, al, ns, loc) := snd ce in
+  if (err =? 0) && (o_stage o =? 0) && list_eqb (fun a b => (fst a =? fst b) && (snd a =? snd b)) al (o_alloc o) then
+    match align (o_after_bind o) ns with
+    | Some k => deleted_ok (fun x _ => match x with NInstr i => move_is_architectural_noop i | _ => false end) (o_after_bind o) k
+    | None => false
+    end
+  else true.
 Definition pairN_eqb (a b : N * N) : bool := (fst a =? fst b) && (snd a =? snd b).
 Definition e2e_same (ce : pcase * e2e_t) : bool :=
   let o := snd (fst ce) in let '(err, al, ns, loc) := snd ce in
